@@ -10,6 +10,7 @@ receive, cancel — in any order, at any point) interleaved with the stage's own
 import Golem.Lemmas.PoolClosed
 import Golem.Lemmas.StageErr
 import Golem.Props.C13
+import Golem.Props.C11
 namespace Golem.Props.C06
 open Golem.Go Golem.Go.Stage Golem.Go.Pool Golem.Model Golem.Lemmas Golem.Lemmas.StageSpec
 
@@ -295,5 +296,40 @@ theorem throttling_cancel_terminates (hops : 1 ≤ ops) (hr : Golem.Go.Throttle.
       q.pc = .exited ∧ (∃ w, q.dc = .exited w) ∧ q.out.closed = true ∧ q.ctl.closed = true :=
   Golem.Props.C13.throttle_cancel_terminates hops hr hc hcl
 end Throttling
+
+/-! ### the sources Emit and Unfold (`Golem.Go.Sources`), every capacity, error mode, function, schedule -/
+section Sources
+open Golem.Go.Sources
+variable {β' ε' : Type}
+
+theorem source_no_panic (P : Fn β' ε') (cap : Nat) (seed : β') {p : Src β' ε'}
+    (hr : Golem.Go.Sources.Reachable P (initEmit P.mode cap) p ∨ Golem.Go.Sources.Reachable P (initUnfold P.mode cap seed) p) :
+    p.panicked = false := Golem.Props.C11.no_panic P cap seed hr
+
+theorem emit_prefix (P : Fn β' ε') (cap : Nat) {p : Src β' ε'}
+    (hr : Golem.Go.Sources.Reachable P (initEmit P.mode cap) p) (m : Nat) (hm : p.iters ≤ m) :
+    p.delivered.map (·.1) <+: okVals P m ∧ p.errsDelivered.map (·.1) <+: errVals P m :=
+  Golem.Props.C11.emit_delivered_prefix P cap hr m hm
+
+theorem unfold_prefix (P : Fn β' ε') (cap : Nat) (seed : β') {p : Src β' ε'}
+    (hr : Golem.Go.Sources.Reachable P (initUnfold P.mode cap seed) p) (m : Nat)
+    (hm : p.delivered.length + p.out.buf.length ≤ m) :
+    p.delivered.map (·.1) <+: iterates P seed m := Golem.Props.C11.unfold_delivered_prefix P cap seed hr m hm
+
+/-- after cancel a source at rest has exited with both channels closed, or (Emit) sits in its one
+non-cancellable Sleep; every select has its Done arm enabled; every process move decreases the variant -/
+theorem source_cancel_terminates (P : Fn β' ε') {p0 p : Src β' ε'} (h0 : Inv P p0)
+    (hr : Golem.Go.Sources.Reachable P p0 p) :
+    (∀ q, q ∈ Golem.Go.Sources.procNext P p → variant q < variant p) ∧
+    (p.cancelled = true → Golem.Go.Sources.procNext P p = [] →
+      (p.pc = .exited ∧ p.out.closed = true ∧ p.exx.closed = true) ∨ ∃ i w, p.pc = .eSleep i w ∧ p.now < w) :=
+  ⟨(Golem.Props.C11.source_cancel_stops P h0 hr).1, (Golem.Props.C11.source_cancel_stops P h0 hr).2.2.1⟩
+
+theorem unfold_cancel_terminates (P : Fn β' ε') (cap : Nat) (seed : β') {p : Src β' ε'}
+    (hr : Golem.Go.Sources.Reachable P (initUnfold P.mode cap seed) p) (hc : p.cancelled = true)
+    (hs : Golem.Go.Sources.procNext P p = []) :
+    p.pc = .exited ∧ p.out.closed = true ∧ p.exx.closed = true :=
+  Golem.Props.C11.unfold_cancel_stops P cap seed hr hc hs
+end Sources
 
 end Golem.Props.C06
